@@ -36,3 +36,35 @@ PROPS["C13"] = dict(
     rule="nested Times/DivBy/FixedWidth/NbUnassignedWidth expressions (grid incl. 0, 2^32, usize::MAX; random nesting depth <= 3) evaluated by the real heuristics on a sub-problem with the given path length; non-trivial = result clamped to 1 or panic; distinct = distinct expression + path length",
     trivial_tags=["plain"],
 )
+
+PROPS["C18"] = dict(
+    modules=["DdoModel.Props.C18", "DdoModel.Props.C10"],
+    theorems=["Ddo.C18.get_eq_max_since_clear", "Ddo.C18.clear_layer_local", "Ddo.C18.update_local", "Ddo.C18.update_ge",
+              "Ddo.C18.maxThr_spec", "Ddo.C18.update_comm", "Ddo.C18.update_idem", "Ddo.C18.updates_perm_invariant",
+              "Ddo.C18.must_explore_spec",
+              "Ddo.C10.store_eq_pareto_front", "Ddo.C10.front_perm_invariant", "Ddo.C10.dominated_iff",
+              "Ddo.C10.store_antichain", "Ddo.C10.query_refines_bucket"],
+    level_text="Sequential specification proved for every operation sequence: get = max (in (value, explored) order) of the thresholds recorded since the layer was last cleared; clear_layer is local; updates commute and are idempotent, so every linearisation of a concurrent update phase yields the same cell; the dominance store equals the Pareto front of everything recorded, whatever the order (front_perm_invariant). Tied to SimpleCache / SimpleDominanceChecker by exhaustive short + long random operation sequences and by concurrent phases of 2..16 real threads (slow-hash keys) whose observations must lie in the model's envelope and whose final state must equal the model's unique state.",
+    level_note="Partial on atomicity: the theorems show that *if* each call is one atomic step the concurrent outcome is that of a sequential ordering (and is order independent); atomicity of dashmap's entry API itself is trusted and only stressed by real threads (a non-atomic read-modify-write shows up as a lost update / lost entry in the concurrent phases, it cannot be exhibited by the model).",
+    engines=[dict(name="cache"), dict(name="dom")],
+    trusted_base=TB_COMMON + ["dashmap: each entry()/get()/clear() call is one atomic step of a finite map (stressed by real-thread phases, not proved)", "Vec::retain visits elements in order; Option<isize>::min on Some values is the minimum"],
+    assumptions=["each DashMap call is atomic", "dominance rule of uniform dimension per key"],
+    rule="cache: all sequences of length <= 3 (quick) / 4 (thorough) over 26 operations (2 states x 2 depths x 2 values x 2 flags updates, gets, must_explore, clear_layer, clear, one out-of-range get) ending in an observation, random sequences of length 5..120 incl. isize extremes and out-of-range depths, concurrent update phases (2,3,4,8,16 threads, 1..3 keys); dominance: all query sequences of length <= 3/4 over 22 operations with and without value, random sequences up to 150, concurrent insertion phases followed by 12 sequential probes; non-trivial = at least two updates to the same structure, a clear, a dominated verdict, a panic or a concurrent phase; distinct = distinct operation sequence",
+    trivial_tags=["exhaustive", "random", "with_value"],
+)
+
+PROPS["C10"] = dict(
+    modules=["DdoModel.Props.C10"],
+    theorems=["Ddo.C10.pcmp_spec", "Ddo.C10.dom_strict_order", "Ddo.C10.store_covers_history", "Ddo.C10.store_sub_history",
+              "Ddo.C10.dominated_iff", "Ddo.C10.not_dominated_inserts", "Ddo.C10.insert_drops_dominated", "Ddo.C10.store_antichain",
+              "Ddo.C10.store_eq_pareto_front", "Ddo.C10.threshold_sound", "Ddo.C10.cmp_of_dominates", "Ddo.C10.query_refines_bucket",
+              "Ddo.C10.query_no_key"],
+    stated_not_proved=["Ddo.C10.DomPruneOk (solver level: enabling the checker never changes the optimum) - watched by the solver correspondence runs, not proved"],
+    level_text="Checker part (sentences 2-4 of the property) proved for every query sequence: dominated iff a previously presented state of the same depth and key is >= everywhere and > somewhere; otherwise recorded and everything it dominates dropped; the store is an antichain equal to the Pareto front of the history; the threshold is >= the presented value and sound; the comparator ranks a dominating state first. Solver part (sentence 1) is partial: not a theorem, watched by the solver-level correspondence runs with dominance enabled (engine seq, see C01).",
+    level_note="Partial: sentence 1 (solver-level soundness of dominance pruning across diagrams) is stated (DomPruneOk) but not proved. Hypothesis of the checker theorems: the rule has one dimension per key (the code reads both states with nb_dimensions of the first).",
+    engines=[dict(name="dom")],
+    trusted_base=TB_COMMON + ["dashmap entry API = finite map", "Vec::retain visits elements in order"],
+    assumptions=["dominance rule of uniform dimension per key", "values are isize (InI) for threshold_sound"],
+    rule="all query sequences of length <= 3 (quick) / 4 (thorough) over 22 operations (18 (coords, value) combinations on one key, a key-less state, a second key, a second depth, clear_layer), with and without value; random sequences of length 4..150 with 0..3 coordinates, isize extremes, out-of-range depths; comparator evaluated on all pairs of the first six presented entries; concurrent phases; non-trivial = a dominated verdict, a clear or a panic occurred; distinct = distinct sequence",
+    trivial_tags=["exhaustive", "random", "with_value"],
+)
